@@ -38,7 +38,7 @@ claims = {
  "C05": dict(level="proof",
    text=("Raw in-child mount sequence (forkAndExecInChild, model K): loop invariant over all mount entries (each mounted with exactly its source/target/type/flags/data; bind-read-only entries remounted with at least their own flags plus REMOUNT), "
          "pivot_root -> detach old root -> remove it -> read-only remount of / required at exec whenever a pivot root is configured; bit-level facts proved as bv lemmas. "),
-   note=TRUST + "kernel models K (raw child) and M (package syscall mounts); precondition: mount targets are distinct pointers. Container side: mount.Mount.Mount (each configured mount issued with exactly its own arguments; read-only binds remounted on the same target with at least their own flags plus MS_REMOUNT), container initFileSystem (root tmpfs -> chdir -> all configured mounts -> pivot_root(ContainerRoot) -> lazy unmount and removal of exactly the old root -> symlinks and masks only after pivot+detach -> nil only if the last remount of / was read-only), maskPath. initContainer/handleConf are not under contract, so initFileSystem is proved under its own precondition (fresh mount state); mount.Builder.WithBind/WithTmpfs/WithProcRW are under contract (a bind declared read-only carries MS_BIND|MS_RDONLY, every bind is nosuid, tmpfs nosuid|nodev, proc nosuid|nodev|noexec and read-only unless asked); Builder.Build/FilterNotExist (raw syscall parameter marshalling) are not. That these mounts make the host unreachable is kernel behaviour.",
+   note=TRUST + "kernel models K (raw child) and M (package syscall mounts); precondition: mount targets are distinct pointers. Container side: mount.Mount.Mount (each configured mount issued with exactly its own arguments; read-only binds remounted on the same target with at least their own flags plus MS_REMOUNT), container initFileSystem (root tmpfs -> chdir -> all configured mounts -> pivot_root(ContainerRoot) -> lazy unmount and removal of exactly the old root -> symlinks and masks only after pivot+detach -> nil only if the last remount of / was read-only), maskPath. initContainer/handleConf are not under contract, so initFileSystem is proved under its own precondition (fresh mount state); mount.Builder.WithBind/WithTmpfs/WithProcRW are under contract (a bind declared read-only carries MS_BIND|MS_RDONLY, every bind is nosuid, tmpfs nosuid|nodev, proc nosuid|nodev|noexec and read-only unless asked); Mount.ToSyscall and Builder.Build marshal exactly the configured source/target/type/flags/data into the raw parameters the child's mount loop uses (cstr abstraction of BytePtrFromString); FilterNotExist is not under contract. That these mounts make the host unreachable is kernel behaviour.",
    design_ref="DESIGN.md §4 C05"),
  "C06": dict(level="proof",
    text=("Descriptor shuffle of forkAndExecInChild proved with quantified loop invariants over the ghost descriptor table for all lists (length, order, repeats, close markers, overlaps with the scratch area and with the sync/exec descriptors): "
@@ -80,7 +80,7 @@ claims = {
    design_ref="DESIGN.md §4 C14"),
  "C12": dict(level="proof",
    text=("Partial. Processes: the deferred clean-up of Tracer.trace issues kill(-pgid, SIGKILL) and then reaps until wait4 fails, on every return path; forkexec Start/syncWithChild/handleChildFailed kill and reap the child on every failing path (parent-side model). "
-         "Descriptors: forkexec Start closes both ends of the sync socketpair on every path; container handleOpen/handleExecve close every file they opened after sending (closeFds over all entries) and on every error path; host Open closes all received descriptors when it fails part-way (Open$1)."),
+         "Descriptors: forkexec Start closes both ends of the sync socketpair on every path; container handleOpen/handleExecve close every file they opened after sending (closeFds over all entries) and on every error path; host Open closes all received descriptors when it fails part-way (Open$1). *os.File ownership (ghost FC): every file queued with a reply is closed by the container's send loop after the send, whether or not it succeeded, or closed directly when the transport is already lost (sendReplyFiles, sendLoop); NewSocket closes the os.File wrapper it creates; DupToMemfd closes its memfd on every failure; the output collector closes its read end; the id-map writer closes its descriptor on every path."),
    note=TRUST + "unshare.Run's deferred clean-up likewise kills the group and reaps (Run$2). Goroutine counts are not under contract; unixsocket RecvMsg descriptor ownership is C19 (not claimed); that everything is dead afterwards is kernel behaviour.",
    design_ref="DESIGN.md §4 C12"),
  "C15": dict(level="proof",
@@ -106,7 +106,7 @@ claims = {
  "C18": dict(level="proof",
    text=("CheckRead/CheckWrite/CheckStat cascade (write => read => stat) and refusal => ban iff soft-ban covers else kill, over an abstract cover predicate; SyscallCounter.Check step contract; budget lemmas over histories; termination and memory safety of the matcher. "
          "Bounded part (labelled bounded): IsInSetSmart against the documented cover relation for every path over {a,b} up to 4 (thorough: 6) levels plus the empty path and /, against every set of one or two entries; found and fixed: the children entry /* admitted / itself."),
-   note=TRUST + "the string-content matcher IsInSetSmart is abstracted in the proofs (deterministic function of set and name); its agreement with the documented cover relation is bounded-checked only, never counted as proved; realPath (EvalSymlinks) is abstract.",
+   note=TRUST + "the string-content matcher IsInSetSmart is abstracted in the proofs (deterministic function of set and name); its agreement with the documented cover relation is bounded-checked only, never counted as proved; realPath (EvalSymlinks) is abstract. FileSet.Add/AddRange: absolute names are entered as written ('/' as the system-root flag), relative names as the directory entry workPath/name + '/', nothing is removed.",
    design_ref="DESIGN.md §4 C18"),
 }
 for k in claims: claims[k].setdefault("technique", "contract-based deductive verification: VC generation over go/ssa from //@ contracts, SMT (z3 5.1/4.8, cvc5)")
